@@ -68,10 +68,14 @@ func (sdp *SizeDataPacker) PackDataInChunks(data [][]byte, limit int) ([][]byte,
 				}
 
 				isMarshaledBuffTooLarge = len(marshaledElements) >= limit
-				if isMarshaledBuffTooLarge {
-					returningBuff = append(returningBuff, marshaledElements)
-					elements = make([][]byte, 0)
+				if !isMarshaledBuffTooLarge {
+					// the current element remains pending, so its marshaled form has to be remembered
+					lastMarshalized = marshaledElements
+					continue
 				}
+
+				returningBuff = append(returningBuff, marshaledElements)
+				elements = make([][]byte, 0)
 			}
 
 			lastMarshalized = make([]byte, 0)
